@@ -118,9 +118,11 @@ def digest_cmd(argv):
     ap.add_argument("--seed", type=int, default=0)
     ap.add_argument("--start", type=int, default=0)
     ap.add_argument("--count", type=int, default=20)
+    ap.add_argument("--indices", default=None)
     a = ap.parse_args(argv)
     eng = engines.for_property(a.prop)
-    res = run_digests(eng, a.tier, a.seed, range(a.start, a.start + a.count))
+    idxs = [int(x) for x in a.indices.split(",")] if a.indices else range(a.start, a.start + a.count)
+    res = run_digests(eng, a.tier, a.seed, idxs)
     print(json.dumps(res, sort_keys=True))
     return 0
 
